@@ -237,6 +237,56 @@ let () =
           let bin = if mc = "1" then Some ((bytes_of_hex bytes, nat_of_int (int_of_string rel)), nat_of_int (int_of_string imm)) else None in
           let c = if comment = "-" then [] else text_of_string comment in
           Printf.printf "F %s\n" (show_line (Fmt.finish_line (text_of_string text) (nat_of_int (int_of_string pad1)) (nat_of_int (int_of_string pad2)) bin c))
+        | "Y" :: a64f :: size :: rep :: hx :: _ ->
+          Printf.printf "Y %s\n" (string_of_text (Fmt.fmt_data (a64f = "1") (cz_of_string size) (bytes_of_hex hx) (cz_of_string rep)))
+        | "Z" :: ff :: inl :: kind :: r ->
+          let f = fflags_of (int_of_string ff) in
+          let node = (match kind, r with
+            | "L", _ -> Fmt.NLabel (zi 0)
+            | "A", mode :: n :: _ -> Fmt.NAlign (cz_of_string n, mode = "0")
+            | "C", c :: _ -> Fmt.NComment (text_of_string c)
+            | "D", size :: count :: rep :: _ ->
+              Fmt.NEmbed (cz_of_string size, cz_of_string count, cz_of_string rep,
+                          (* "TotalSize" is EmbedDataNode::data_size() = item size * count (the repeat count is not included) *)
+                          cz_of_z (Z.mul (Z.of_string size) (Z.of_string count)))
+            | "S", nm :: _ -> Fmt.NSection (text_of_string nm)
+            | "I", r -> let (i, _, _) = read_inst ~with_comment:false r in Fmt.NInst i
+            | _ -> raise (Bad "node")) in
+          Printf.printf "Z %s\n" (string_of_text (Fmt.fmt_node f (nat_of_int 44) node (if inl = "-" then [] else text_of_string inl)))
+        | "P" :: "D" :: _ ->
+          let (_, text) = split_bar line in
+          (match Fmt.parse_data (text_of_string text) with
+           | Some ((rp, w), items) -> Printf.printf "P %s %s %s\n" (string_of_cz rp) (string_of_text w) (String.concat "," (List.map string_of_cz items))
+           | None -> print_endline "P <no parse>")
+        | "W" :: ff :: optype :: vidx :: vtype :: name :: _ ->
+          let ff = int_of_string ff in
+          let ot = Fmt.rt_of_code (cz_of_string optype) in
+          if name = "!" then
+            (* not a virtual register of the Compiler: printed like a physical id *)
+            Printf.printf "W %s\n" (string_of_text (Fmt.fmt_reg ot (cz_of_z (Z.add (Z.of_string vidx) (Z.of_int 256)))))
+          else
+            Printf.printf "W %s\n" (string_of_text (Fmt.x86_fmt_virt (ff land ff_reg_type <> 0) (ff land ff_reg_casts <> 0)
+              (if name = "-" then None else Some (text_of_string name)) (cz_of_string vidx) (Fmt.rt_of_code (cz_of_string vtype)) ot))
+        | "U" :: ff :: nv :: r ->
+          let ff = int_of_string ff in
+          let rec env n toks acc = if n = 0 then (List.rev acc, toks) else
+              (match toks with
+               | vt :: nm :: rest -> env (n - 1) rest (((if nm = "-" then None else Some (text_of_string nm)), Fmt.rt_of_code (cz_of_string vt)) :: acc)
+               | _ -> raise (Bad "venv")) in
+          let (e, rest) = env (int_of_string nv) r [] in
+          (match read_x86_op rest with
+           | (Fmt.OMem m, _) ->
+             Printf.printf "U %s\n" (string_of_text (Fmt.fmt_mem_virt e (ff land ff_reg_type <> 0) (ff land ff_reg_casts <> 0) (fflags_of ff) m))
+           | _ -> raise (Bad "U needs a memory operand"))
+        | "B" :: id :: kind :: pk :: pname :: pid :: name :: _ ->
+          let id = cz_of_string id in
+          let info = match kind with
+            | "0" -> Fmt.LInvalid id
+            | "1" -> Fmt.LPlain id
+            | _ -> Fmt.LNamed (id, (kind = "3"),
+                     (match pk with "0" -> Fmt.PNone | "1" -> Fmt.PNamed (text_of_string pname) | _ -> Fmt.PUnnamed (cz_of_string pid)),
+                     text_of_string name) in
+          Printf.printf "B %s\n" (string_of_text (Fmt.fmt_label info))
         | "G" :: _ ->
           (* the proven line splitter on AsmJit's logger line ('$' stands for the newline) *)
           let (_, text) = split_bar line in
@@ -249,6 +299,19 @@ let () =
            | None -> print_endline "C <unparsable>"
            | Some l -> Printf.printf "C %s\n" (String.concat " " (List.map (function None -> ".." | Some b -> Printf.sprintf "%02x" (Z.to_int (z_of_cz b))) l)))
         | "C" :: [] -> print_endline "C "
+        | "P" :: "W" :: idx :: ty :: _ ->
+          let (_, text) = split_bar line in
+          (match Fmt.parse_virt (text_of_string text) with
+           | Some (i, t) ->
+             let ts = (match t with None -> "-" | Some t -> show_rt t) in
+             if string_of_cz i = idx && ts = ty then print_endline "P ok" else Printf.printf "P MISMATCH parsed=%s %s\n" (string_of_cz i) ts
+           | None -> print_endline "P MISMATCH parsed=<no parse>")
+        | "P" :: "B" :: id :: name :: _ ->
+          let (_, text) = split_bar line in
+          (match Fmt.parse_anon_label (text_of_string text) with
+           | Some (i, n) -> if string_of_cz i = id && string_of_text n = name then print_endline "P ok"
+                            else Printf.printf "P MISMATCH parsed=%s %s\n" (string_of_cz i) (string_of_text n)
+           | None -> print_endline "P MISMATCH parsed=<no parse>")
         | "P" :: "O" :: arch :: r when arch = x64 ->
           let (_, text) = split_bar line in
           let (op, _) = read_x86_op r in
